@@ -999,7 +999,30 @@ var specLists = pbt.Register(pbt.Spec[ListCase]{
 	Draw: drawListCase, Run: noPanic(runListCase),
 })
 
-func TestLists(t *testing.T) { specLists.Check(t) }
+func TestLists(t *testing.T) {
+	// long lists on the wire: the element count travels in 24 bits; sizes on both sides of 2^16
+	shard, n := pbt.Shard()
+	k := 0
+	for _, typ := range allTypes {
+		for _, size := range []int{65535, 65536, pbt.Pick(70000, 300000)} {
+			k++
+			if k%n != shard {
+				continue
+			}
+			es := make([]string, size)
+			for i := range es {
+				v := (i*7 + i/256) % 1000
+				if typ == tString {
+					es[i] = gen.Hex([]byte(strconv.Itoa(v)))
+				} else {
+					es[i] = strconv.Itoa(v)
+				}
+			}
+			specLists.RunCase(t, ListCase{T: typ, Cap: -1, Ops: []LOp{{K: "addallarray", Es: es}, {K: "wire", C: -1}}})
+		}
+	}
+	specLists.Check(t)
+}
 
 // ---- sub-check "sorting" ---------------------------------------------------------------------
 
